@@ -44,6 +44,12 @@ pub fn grids(tier: Tier) -> Vec<Grid> {
   for r1 in &rows2 { for r2 in &rows2 { for r3 in &rows2 { if r1.len() + r2.len() + r3.len() <= 4 { v.push(vec![r1.clone(), r2.clone(), r3.clone()]); } } } }
   let one = rows_of(1, &[1, 2]);
   for r1 in &one { for r2 in &one { for r3 in &one { for r4 in &one { v.push(vec![r1.clone(), r2.clone(), r3.clone(), r4.clone()]); } } } }
+  // taller and wider blocks (heights that are not powers of two included): two block-rows of one or two blocks, three block-rows, and
+  // single rows of two to four tall blocks
+  for h1 in 1..=7usize { for h2 in 1..=7usize { for w in 1..=3usize { if h1 > 2 || h2 > 2 || w > 2 { v.push(vec![vec![(h1, w)], vec![(h2, w)]]); } } } }
+  for h1 in [1usize, 2, 3, 5] { for h2 in [1usize, 2, 3, 5] { for w1 in 1..=3usize { for w2 in 1..=3usize { if h1 > 2 || h2 > 2 || w1 > 2 || w2 > 2 { v.push(vec![vec![(h1, w1), (h1, w2)], vec![(h2, w1), (h2, w2)]]); } } } } }
+  for h1 in [1usize, 3, 5] { for h2 in [1usize, 3, 5] { for h3 in [1usize, 3, 5] { if h1 + h2 + h3 > 3 { v.push(vec![vec![(h1, 2)], vec![(h2, 2)], vec![(h3, 2)]]); } } } }
+  for h in [3usize, 5, 6, 7] { for n in 2..=4usize { for m in 0..(1usize << n) { v.push(vec![(0..n).map(|i| (h, 1 + (m >> i & 1))).collect()]); } } }
   if tier == Tier::Thorough {
     // three rows, dimensions up to 3, at most 6 blocks
     let rows3 = rows_of(2, &[1, 2, 3]);
